@@ -20,7 +20,7 @@ import MirProofs.Props.C06_Gen
 -/
 namespace Mir.C16.GenIndex
 open Mir Mir.Segment
-open Mir.PyM (ok_bind error_bind divF_bind_divF pairs_shape rand_shape)
+open Mir.PyM (ok_bind error_bind divF_bind_divF pairs_shape rand_shape checkLen_pure)
 
 /-! ### `_contingency_matrix` -/
 
@@ -313,5 +313,193 @@ example : ¬ ariSpecial [0, 0, 1, 1] [0, 1, 1, 1] ∧ SamePartition [0, 0, 1, 2,
   refine ⟨by decide +kernel, ?_, by decide +kernel, by decide +kernel⟩
   unfold SamePartition
   decide +kernel
+
+/-! ### the entropy family, translated polymorphically over the hand model's class `Transc α`
+
+  `_entropy`, `_mutual_info_score`, the body of `nce` and `vmeasure` are emitted once, over any `[Transc α]`; each
+  equality below is therefore ONE theorem for both instances — `Float` (what the driver executes and the
+  correspondence compares) and `ℝ` (what the textbook theorems of `Props/C16.lean` speak about). -/
+
+/-- **`_entropy` as translated = the hand model's `entropyIdx`**, at every number type, for every label sequence
+    (`np.bincount` of the `return_inverse` indices is the list of class sizes; the mask `pi > 0` keeps all of them). -/
+theorem _entropy_eq_model {α : Type} [Transc α] (y : List Nat) :
+    Mir.Gen.segment._entropy (α := α) y = .ok (entropyIdx y) := by
+  unfold Mir.Gen.segment._entropy entropyIdx PyM.uniqueInverse
+  by_cases h0 : y.length = 0
+  · simp only [PyM.len_eq, h0, decide_true, if_true]; rfl
+  · have hy : y ≠ [] := fun e => h0 (by simp [e])
+    simp only [PyM.len_eq, h0, decide_false, if_false, PyM.unique_eq, Bool.false_eq_true]
+    rw [PyM.bincount_inverse hy,
+      PyM.selectVec_pos (List.map (fun c => List.count c y) (classes y)) (classCounts_pos y)]
+    simp only [List.map_map, List.zipWith_map, List.zipWith_self, PyM.pySum_eq, Function.comp_def]
+    rfl
+
+/-- **`_mutual_info_score` with a pre-computed table as translated = `mutualInfoTab`** on that table with its own
+    marginals, for every well-shaped matrix (`contingency[nnz]` and `outer[nnz]` select the same cells in the same
+    order as the hand model's double loop skips the zero cells). -/
+theorem _mutual_info_score_precomputed {α : Type} [Transc α] (yr ye : List Nat) (M : PyM.Mat Nat)
+    (hwf : ∀ r ∈ M.rows, r.length = M.ncols) :
+    Mir.Gen.segment._mutual_info_score (α := α) yr ye (some M) =
+      .ok (mutualInfoTab M.rows (PyM.sumAxis1 M) (PyM.sumAxis0 M)) := by
+  unfold Mir.Gen.segment._mutual_info_score
+  simp only [pure_bind]
+  obtain ⟨nr, nc, c⟩ := M
+  have ha : c.length = (PyM.sumAxis1 ⟨nr, nc, c⟩).length := by simp [PyM.sumAxis1]
+  have hb : ∀ r ∈ c, r.length = (PyM.sumAxis0 ⟨nr, nc, c⟩).length := by
+    intro r hr'
+    rw [PyM.length_sumAxis0 _ hwf]; exact hwf r hr'
+  unfold PyM.outerT
+  rw [PyM.selectMat_nz_fst nr nc c _ _ ha hb,
+    PyM.selectMat_nz_snd (fun ai bj => (Transc.ofNat ai * Transc.ofNat bj : α)) _ _ c _ _ ha hb]
+  unfold mutualInfoTab
+  rw [PyM.mutualInfoSum_eq_nzCells]
+  simp only [List.map_map, List.zipWith_map, List.zipWith_self, Function.comp_def, PyM.pySum_eq, PyM.sumAll]
+  rfl
+
+set_option linter.unusedSimpArgs false in
+/-- **`_mutual_info_score(ref, est)` as translated = the hand model's `mutualInfoIdx`** (with `coo_matrix`'s
+    `ValueError` on unequal lengths), at every number type, for all index vectors. -/
+theorem _mutual_info_score_eq_model {α : Type} [Transc α] (yr ye : List Nat) :
+    Mir.Gen.segment._mutual_info_score (α := α) yr ye none =
+      (do checkLen yr ye; pure (mutualInfoIdx yr ye)) := by
+  have key : Mir.Gen.segment._mutual_info_score (α := α) yr ye none =
+      (do let M ← Mir.Gen.segment._contingency_matrix yr ye
+          Mir.Gen.segment._mutual_info_score (α := α) yr ye (some M)) := by
+    unfold Mir.Gen.segment._mutual_info_score
+    simp only [bind_pure, pure_bind]
+  rw [key, _contingency_matrix_eq_model]
+  unfold contingencyPy checkLen
+  by_cases hl : yr.length = ye.length
+  · simp only [if_neg (not_not.2 hl), ok_bind]
+    rw [_mutual_info_score_precomputed]
+    · rfl
+    · intro r hr
+      simp only [contingency, List.mem_map] at hr
+      obtain ⟨a, _, rfl⟩ := hr
+      simp
+  · simp only [if_pos hl, error_bind]
+
+/-- **the body of `nce` as translated = the hand model's `nceIdx`** (beta cast by `Transc.ofRat`), at every number
+    type, for all index vectors, both values of `marginal`. -/
+theorem nce_core_eq_model {α : Type} [Transc α] (yr ye : List Nat) (beta : ℚ) (marginal : Bool) :
+    Mir.Gen.segment.nce_core (α := α) yr ye beta marginal =
+      (do checkLen yr ye; pure (nceIdx yr ye (Transc.ofRat beta) marginal)) := by
+  unfold Mir.Gen.segment.nce_core
+  rw [_contingency_matrix_eq_model]
+  unfold contingencyPy checkLen
+  by_cases hl : yr.length = ye.length
+  · simp only [if_neg (not_not.2 hl), ok_bind]
+    unfold nceIdx
+    simp only [length_contingency]
+    cases marginal <;> rfl
+  · simp only [if_pos hl, error_bind]
+
+set_option linter.unusedSimpArgs false in
+/-- **`segment.nce` as translated** = validation, the `(0, 0, 0)` of an empty annotation, frame sampling (the hand
+    model's `prologue`), then `nceIdx` — at every number type. -/
+theorem nce_eq_model {α : Type} [Transc α] (ri : List (ℚ × ℚ)) (rl : List Label) (ei : List (ℚ × ℚ)) (el : List Label)
+    (fs beta : ℚ) (marginal : Bool) :
+    Mir.Gen.segment.nce (α := α) ri rl ei el fs beta marginal =
+      (do match ← prologue ⟨ri, rl, ei, el⟩ fs with
+          | none => pure (Transc.ofNat 0, Transc.ofNat 0, Transc.ofNat 0)
+          | some (yr, ye) => do checkLen yr ye; pure (nceIdx yr ye (Transc.ofRat beta) marginal)) := by
+  unfold Mir.Gen.segment.nce Segment.prologue PyM.validate_structure
+  cases hv : validateStructure ri rl.length ei el.length with
+  | error e => rfl
+  | ok u =>
+    simp only [ok_bind, PyM.size2_eq_zero, Bool.or_eq_true]
+    by_cases he : ri.isEmpty = true ∨ ei.isEmpty = true
+    · simp only [if_pos he]; rfl
+    · simp only [if_neg he, pure_bind, bind_pure]
+      rw [nce_core_eq_model]
+      rfl
+
+set_option linter.unusedSimpArgs false in
+/-- **v_eq_nce_marginal (translated).** `vmeasure` as translated is `nce(..., marginal=True)` as translated. -/
+theorem vmeasure_eq_nce {α : Type} [Transc α] (ri : List (ℚ × ℚ)) (rl : List Label) (ei : List (ℚ × ℚ))
+    (el : List Label) (fs beta : ℚ) :
+    Mir.Gen.segment.vmeasure (α := α) ri rl ei el fs beta = Mir.Gen.segment.nce (α := α) ri rl ei el fs beta true := by
+  unfold Mir.Gen.segment.vmeasure
+  simp only [bind_pure]
+
+/-- at `Float` and on non-empty annotations the translated `nce` is the hand model's public function (what the
+    correspondence suites compare with the code); on an empty annotation both return three zeros (the model as
+    rationals, the translation as `Float`s) -/
+theorem nce_float_eq_model (ri : List (ℚ × ℚ)) (rl : List Label) (ei : List (ℚ × ℚ)) (el : List Label)
+    (fs beta : ℚ) (marginal : Bool) (hne : ¬ (ri.isEmpty = true ∨ ei.isEmpty = true)) :
+    (Mir.Gen.segment.nce (α := Float) ri rl ei el fs beta marginal).map Segment.tripleF =
+      Segment.nce ⟨ri, rl, ei, el⟩ fs beta marginal := by
+  rw [nce_eq_model]
+  unfold Segment.nce Segment.prologue
+  cases hv : validateStructure ri rl.length ei el.length with
+  | error e => rfl
+  | ok u =>
+    simp only [ok_bind, if_neg hne, pure_bind]
+    unfold checkLen
+    by_cases hl : (frameIndices ri rl fs).length = (frameIndices ei el fs).length
+    · simp only [if_neg (not_not.2 hl), ok_bind]; rfl
+    · simp only [if_pos hl, error_bind]; rfl
+
+/-! #### the textbook forms (over the reals) on the TRANSLATED definitions -/
+
+/-- **entropy_textbook (translated).** Over the reals the translated `_entropy` returns the Shannon entropy
+    `−Σ_c p_c log p_c` of the labelling (`1.0` for an empty one). -/
+theorem gen_entropy_textbook (y : List Nat) :
+    Mir.Gen.segment._entropy (α := ℝ) y = .ok
+      (if y.length = 0 then 1
+       else -((classes y).map fun c =>
+         ((y.count c : ℝ) / (y.length : ℝ)) * Real.log ((y.count c : ℝ) / (y.length : ℝ))).sum) := by
+  rw [_entropy_eq_model, Mir.C16.entropy_textbook]
+
+/-- **mi_textbook / mi_nonneg / mi_symm (translated).** Over the reals the translated `_mutual_info_score` returns
+    `Σ_ij p_ij log(p_ij / (p_i p_j))`, which is non-negative (the `np.clip` never fires) and symmetric. -/
+theorem gen_mi_textbook (yr ye : List Nat) (h : yr.length = ye.length) :
+    Mir.Gen.segment._mutual_info_score (α := ℝ) yr ye none = .ok (miSum yr ye) ∧ 0 ≤ miSum yr ye ∧
+    Mir.Gen.segment._mutual_info_score (α := ℝ) ye yr none = Mir.Gen.segment._mutual_info_score (α := ℝ) yr ye none ∧
+    miSum yr ye =
+      ((classes yr).map fun x => ((classes ye).map fun y =>
+        let pij : ℝ := (((yr.zip ye).countP fun p => p.1 == x && p.2 == y : Nat) : ℝ) / (yr.length : ℝ)
+        pij * Real.log (pij / (((yr.count x : ℝ) / yr.length) * ((ye.count y : ℝ) / yr.length)))).sum).sum := by
+  have e1 := (Mir.C16.mi_nonneg yr ye h).2
+  refine ⟨?_, ?_, ?_, ?_⟩
+  · rw [_mutual_info_score_eq_model, checkLen_pure h, e1]
+  · rw [← e1]; exact (Mir.C16.mi_nonneg yr ye h).1
+  · rw [_mutual_info_score_eq_model, _mutual_info_score_eq_model, checkLen_pure h, checkLen_pure h.symm,
+      Mir.C16.mi_symm yr ye h]
+  · rw [← e1]; exact Mir.C16.mi_textbook yr ye h
+
+/-- **nce_textbook (translated).** Over the reals the translated body of `nce` returns
+    `S_over = 1 − H₂(est | ref) / Z_est`, `S_under = 1 − H₂(ref | est) / Z_ref` and `util.f_measure` of the two
+    (`Z = log₂ #clusters`, or the marginal entropy in bits for `marginal=True`; `0` when `Z` is not positive). -/
+theorem gen_nce_textbook (yr ye : List Nat) (h : yr.length = ye.length) (beta : ℚ) (marginal : Bool) :
+    Mir.Gen.segment.nce_core (α := ℝ) yr ye beta marginal = .ok
+      (let zRef : ℝ := if marginal then shannon yr / Real.log 2 else Real.logb 2 ((classes yr).length : ℝ)
+       let zEst : ℝ := if marginal then shannon ye / Real.log 2 else Real.logb 2 ((classes ye).length : ℝ)
+       let over : ℝ := if 0 < zEst then 1 - condEntropy2 yr ye / zEst else 0
+       let under : ℝ := if 0 < zRef then 1 - condEntropy2 ye yr / zRef else 0
+       (over, under, fMeasureT over under (beta : ℝ))) := by
+  rw [nce_core_eq_model, checkLen_pure h, Mir.C16.nce_textbook yr ye h]
+  rfl
+
+/-- **v_is_mi_over_entropy (translated).** With `marginal = True` (V-measure) the two scores are `MI/H(est)` and
+    `MI/H(ref)` (`0` with fewer than two clusters). -/
+theorem gen_vmeasure_is_mi_over_entropy (yr ye : List Nat) (h : yr.length = ye.length) (beta : ℚ) :
+    ∃ r : ℝ × ℝ × ℝ, Mir.Gen.segment.nce_core (α := ℝ) yr ye beta true = .ok r ∧
+      r.1 = (if 1 < (classes ye).length then miSum yr ye / shannon ye else 0) ∧
+      r.2.1 = (if 1 < (classes yr).length then miSum yr ye / shannon yr else 0) := by
+  refine ⟨_, by rw [nce_core_eq_model, checkLen_pure h], ?_, ?_⟩
+  · exact (Mir.C16.v_is_mi_over_entropy yr ye h (Transc.ofRat beta)).1
+  · exact (Mir.C16.v_is_mi_over_entropy yr ye h (Transc.ofRat beta)).2
+
+example : Mir.Gen.segment._entropy (α := ℝ) [] = .ok 1 ∧
+    Mir.Gen.segment._entropy (α := ℝ) [0, 0, 1, 1] = .ok (Real.log 2) := by
+  constructor
+  · rw [gen_entropy_textbook]; simp
+  · rw [_entropy_eq_model]
+    have hc : classes [0, 0, 1, 1] = [0, 1] := by decide +kernel
+    rw [Mir.C16.entropy_textbook, hc]
+    have h2 : Real.log ((1 : ℝ) / 2) = -Real.log 2 := by rw [one_div, Real.log_inv]
+    norm_num [h2]
+    ring
 
 end Mir.C16.GenIndex
